@@ -547,6 +547,7 @@ func runConcrete(l *loaded, cfg *RunCfg, entry *ssa.Function, name string, input
 		*eng = e
 	}
 	e := *eng
+	e.cfg = cfg // per-harness replacement table and options
 	local := HarnessResult{Name: name, Reached: map[string]int{}, Funcs: map[string]bool{}}
 	e.res = &local
 	e.labelViol = map[string]int{}
